@@ -2,6 +2,7 @@ package main
 
 import (
 	"fmt"
+	"go/token"
 	"go/types"
 	"math/big"
 	"sort"
@@ -188,24 +189,11 @@ func (m *Machine) verifyOnce() {
 		}
 	}
 	if m.fc != nil && len(m.fc.Ensures) > 0 {
-		// at least one return path must be feasible (checked on up to four return paths)
-		n := 0
-		step := 1
-		if len(m.coverPCs) > 8 {
-			step = (len(m.coverPCs) + 7) / 8
-		}
-		for i, pc := range m.coverPCs {
-			if i%step != 0 && i != len(m.coverPCs)-1 {
-				continue
-			}
-			n++
-			m.obls = append(m.obls, &Obligation{Func: relName(fn), Name: relName(fn) + "#cover.return", Kind: "cover.any", Cover: true,
-				PC: pc, Goal: m.ctx.T, ctx: m.ctx, Tags: m.allTags(), Desc: "some path reaches a return", Inputs: m.inputs})
-		}
-		if n == 0 {
-			m.obls = append(m.obls, &Obligation{Func: relName(fn), Name: relName(fn) + "#cover.return", Kind: "cover.any", Cover: true,
-				PC: []*Term{m.ctx.F}, Goal: m.ctx.T, ctx: m.ctx, Tags: m.allTags(), Desc: "some path reaches a return", Inputs: m.inputs})
-		}
+		// at least one return path must be feasible
+		o := &Obligation{Func: relName(fn), Name: relName(fn) + "#cover.return", Kind: "cover.any", Cover: true,
+			PC: []*Term{m.ctx.F}, Goal: m.ctx.T, ctx: m.ctx, Tags: m.allTags(), Desc: "some path reaches a return", Inputs: m.inputs}
+		o.Alts = m.coverPCs
+		m.obls = append(m.obls, o)
 	}
 }
 
@@ -398,6 +386,9 @@ func (m *Machine) applyContract(st *State, fr *Frame, instr ssa.Instruction, fc 
 	m.resultBindings(fn, sig, rets, bind)
 	saved := st.definable
 	st.definable = definable
+	m.ctx.nfresh++
+	st.opaque = m.ctx.nfresh
+	defer func() { st.opaque = 0 }()
 	for _, e := range fc.Ensures {
 		v, ok := m.evalClause(st, e, bind)
 		if !ok {
@@ -707,6 +698,9 @@ func (m *Machine) enterLoopHeader(st *State, fr *Frame, from, header *ssa.BasicB
 	tags := spec.Tags
 	evalInv := func(kind string) {
 		m.enterBlock(st, fr, from, header) // bind phis to incoming values
+		if ri := m.rangeIndexInv(st, fr, header); ri != nil {
+			m.oblige(st, fr, kind, fmt.Sprintf("loop%d.rangeindex", ord), ri, m.safeTagsFor(fr.fn), "range loop index stays within -1 <= i < len (automatic)")
+		}
 		bind := m.currentBindings(st, fr)
 		if cut := fr.cuts[header.Index]; cut != nil {
 			for k, v := range cut.lets {
@@ -798,6 +792,9 @@ func (m *Machine) enterLoopHeader(st *State, fr *Frame, from, header *ssa.BasicB
 	bind := m.currentBindings(st, fr)
 	for k, v := range cut.lets {
 		bind[k] = v
+	}
+	if ri := m.rangeIndexInv(st, fr, header); ri != nil {
+		st.assume(ri)
 	}
 	for _, inv := range spec.Invariants {
 		m.localBindings(st, fr, header, paramNames(inv), bind)
@@ -951,4 +948,41 @@ func (m *Machine) learnDistinct(t *Term) {
 			m.ctx.knownDistinct[[2]int{e.args[0].id, e.args[1].id}] = true
 		}
 	}
+}
+
+// rangeIndexInv: for a `for i := range s` loop (go/ssa: phi #rangeindex, t = phi+1, t < len)
+// the invariant -1 <= phi < max(len,0)... precisely: -1 <= phi && phi < len || (phi == -1).
+func (m *Machine) rangeIndexInv(st *State, fr *Frame, header *ssa.BasicBlock) *Term {
+	var phi *ssa.Phi
+	for _, ins := range header.Instrs {
+		p, ok := ins.(*ssa.Phi)
+		if !ok {
+			break
+		}
+		if p.Comment == "rangeindex" {
+			phi = p
+		}
+	}
+	if phi == nil {
+		return nil
+	}
+	var bound ssa.Value
+	for _, ins := range header.Instrs {
+		if b, ok := ins.(*ssa.BinOp); ok && b.Op == token.LSS {
+			if add, ok := b.X.(*ssa.BinOp); ok && add.Op == token.ADD && add.X == phi {
+				bound = b.Y
+			}
+		}
+	}
+	if bound == nil {
+		return nil
+	}
+	pv, ok1 := fr.env[phi].(*Term)
+	bvv, ok2 := fr.env[bound]
+	if !ok1 || !ok2 {
+		return nil
+	}
+	bv := bvv.(*Term)
+	minus1 := m.ts.IdxConst(-1)
+	return m.ctx.And(m.idxLe(minus1, pv), m.ctx.Or(m.idxLt(pv, bv), m.ctx.Eq(pv, minus1)))
 }
